@@ -98,12 +98,16 @@ def formulas_for(rec, ref):
         fs.append((('at', 0), f'={ref}'))
         fs.append((('at', 0), f'={ref}+0'))
         fs.append((('sum',), f'=SUM({ref},0)'))
+        fs.append((('sum2',), f'={ref}+SUM({ref})'))            # two (possibly quoted) references in one formula text
         return fs
     for i in range(rows):
         for j in range(cols):
             fs.append((('at', i * cols + j), f'=INDEX({ref},{i + 1},{j + 1})'))
     fs.append((('sum',), f'=SUM({ref})'))
     fs.append((('count',), f'=COUNT({ref})'))
+    fs.append((('sum2',), f'=SUM({ref})+SUM({ref})'))
+    pre = ref.rpartition('!')[0]
+    fs.append((('sum',), f"={pre + '!' if pre else ''}A1*0+SUM({ref})"))     # a cell reference, then an area, each with the same prefix
     fs.append((('sum',), f'=SUMIFS({ref},{ref},">0")'))
     if cols >= 2:
         fs.append((('vlookup',), f'=VLOOKUP(INDEX({ref},{rows},1),{ref},{cols},FALSE)'))     # key = first cell of the last row
@@ -126,6 +130,9 @@ def judge_rec(rec, results, fs):
         elif tag[0] == 'sum':
             if not (kind == 'val' and isinstance(p, (int, float)) and not isinstance(p, bool) and abs(p - total) < 0.5):
                 bad.append((f, f'the sum of the {len(den)} planted values', repo_show(kind, p, None)))
+        elif tag[0] == 'sum2':
+            if not (kind == 'val' and isinstance(p, (int, float)) and not isinstance(p, bool) and abs(p - 2 * total) < 0.5):
+                bad.append((f, f'twice the sum of the {len(den)} planted values', repo_show(kind, p, None)))
         elif tag[0] == 'count':
             if not (kind == 'val' and p == len(den)):
                 bad.append((f, str(len(den)), repo_show(kind, p, None)))
